@@ -5,6 +5,7 @@ import Apko.Proofs.Lemmas.TarWFReach
 import Apko.Proofs.Lemmas.TarWFGuard
 import Apko.Proofs.C17
 import Apko.Generated.Tar
+import Apko.Proofs.Lemmas.TarCancel
 /-!
 # C06 — a layer tarball faithfully and canonically serializes the built file system
 
@@ -689,6 +690,135 @@ theorem mknodBlk_layer (bk : Backend) :
   rw [walk_mknodBlk]
   cases bk <;> rfl
 
+
+/-! ## a context that becomes done while the layer is written (round 5)
+
+`Model/TarCancel.lean`: the context is looked at once per invocation of the `walkFS` callback and by whatever
+`if err := ctx.Err(); err != nil { return … }` statements the callers have before and after the walk; the plan
+(`singlePlan`, `writeTarPlan`, `multiPlan`) is read off the regenerated statements.  The property (the layer holds exactly
+the paths of the file system) for a call that returns no error: for EVERY context (done from any check on, with either
+error) the call returns the context's error or the layer holds the complete entry list — never a shorter one. -/
+
+/-- the property at full strength for an arbitrary plan: false for a callback that ends the walk with `fs.SkipAll`
+when no caller looks at the context afterwards (`walk_cancel_skipall_partial`) -/
+def walk_cancel_full (p : CtxPlan) : Prop :=
+  ∀ (ctx : Option Ctx) (es : List Entry), (∃ e, layerCtx p ctx es = .error e) ∨ layerCtx p ctx es = .ok es
+
+/-- the plans of the code as it is now are safe (re-evaluated on the regenerated statements on every run) -/
+theorem plans_safe : singlePlan.safe = true ∧ writeTarPlan.safe = true ∧ multiPlan.safe = true := by decide
+
+/-- **walk_cancel_error_or_complete** (single layer: `BuildLayer` / `ImageLayoutToLayer` / `writeTar` / `walkFS` as
+regenerated): for every state of the file system and every context, the call returns the context's error or the layer
+holds every entry of `writeTar` -/
+theorem walk_cancel_error_or_complete (b : Backend) (fs : FS) (ctx : Option Ctx) :
+    (∃ e, layerCtx singlePlan ctx (writeTar b fs) = .error e) ∨
+      layerCtx singlePlan ctx (writeTar b fs) = .ok (writeTar b fs) :=
+  layerCtx_error_or_complete singlePlan plans_safe.1 ctx _
+
+/-- the same for `writeTar` alone and for the walk `splitLayers` consumes (its layers partition what the walk yields:
+C10 `file_once`, `flatten_eq_single`) -/
+theorem walk_cancel_error_or_complete_all : walk_cancel_full singlePlan ∧ walk_cancel_full writeTarPlan ∧ walk_cancel_full multiPlan :=
+  ⟨fun ctx es => layerCtx_error_or_complete _ plans_safe.1 ctx es, fun ctx es => layerCtx_error_or_complete _ plans_safe.2.1 ctx es,
+   fun ctx es => layerCtx_error_or_complete _ plans_safe.2.2 ctx es⟩
+
+/-- hence a layer that is emitted has exactly the walk's paths, also under cancellation -/
+theorem walk_cancel_paths (b : Backend) (fs : FS) (ctx : Option Ctx) (l : List Entry)
+    (h : layerCtx singlePlan ctx (writeTar b fs) = .ok l) : l.map (·.path) = (walk fs).map (·.1) := by
+  rcases walk_cancel_error_or_complete b fs ctx with ⟨e, he⟩ | hc
+  · rw [he] at h; cases h
+  · rw [hc] at h; cases h; exact writeTar_paths b fs
+
+/-- the error is the context's, and a context that is never done gives the complete layer (the statement is not
+met by failing always) -/
+theorem walk_cancel_error_is_ctx (p : CtxPlan) (c : Ctx) (es : List Entry) (e : CtxErr)
+    (h : layerCtx p (some c) es = .error e) : e = c.err := by
+  simp only [layerCtx] at h
+  split at h
+  · rename_i e1 h1; cases h; exact firstErr_err c _ _ _ h1
+  · split at h
+    · rename_i e2 h2
+      cases h
+      -- the walk's error comes from one `errAt`
+      have : ∀ (k : Nat) (l : List Entry), (walkItems p.onDone (some c) k l).err = some e → e = c.err := by
+        intro k l
+        induction l generalizing k with
+        | nil => simp [walkItems]
+        | cons x xs ih =>
+          simp only [walkItems]
+          split
+          · rename_i err hcb
+            intro hx
+            simp only at hx
+            subst hx
+            cases hod : p.onDone <;> simp only [hod, cbCheck] at hcb
+            · split at hcb
+              · rename_i e3 h3; cases hcb; exact errAt_err c k _ h3
+              · cases hcb
+            · split at hcb <;> cases hcb
+            · cases hcb
+            · cases hcb
+          · intro hx; exact ih _ (by simpa using hx)
+      simp only [walkFSCtx] at h2
+      split at h2
+      · rename_i err hcb
+        simp only at h2
+        subst h2
+        cases hod : p.onDone <;> simp only [hod, cbCheck] at hcb
+        · split at hcb
+          · rename_i e3 h3; cases hcb; exact errAt_err c _ _ h3
+          · cases hcb
+        · split at hcb <;> cases hcb
+        · cases hcb
+        · cases hcb
+      · exact this _ _ h2
+    · split at h
+      · rename_i e3 h3; cases h; exact firstErr_err c _ _ _ h3
+      · cases h
+
+theorem walk_cancel_live (p : CtxPlan) (es : List Entry) : layerCtx p none es = .ok es := layerCtx_live p es
+
+/-- whatever the plan, an emitted layer is a prefix of the walk (nothing foreign, nothing reordered) -/
+theorem walk_cancel_ok_prefix (p : CtxPlan) (ctx : Option Ctx) (es l : List Entry) (h : layerCtx p ctx es = .ok l) : l <+: es :=
+  layerCtx_ok_prefix p ctx es l h
+
+/-- **the `SkipAll` variant without a check after the walk violates the property**: three entries, the context done at
+its third check (root, first entry, second entry): nil error and a layer with one entry -/
+theorem walk_cancel_skipall_partial :
+    ¬ walk_cancel_full { onDone := .skipAll, before := 1, after := 0 } := by
+  intro h
+  let e1 : Entry := { path := [tx "a"], kind := .reg, mode := 0o644, uid := 0, gid := 0 }
+  let e2 : Entry := { path := [tx "b"], kind := .reg, mode := 0o644, uid := 0, gid := 0 }
+  let e3 : Entry := { path := [tx "c"], kind := .reg, mode := 0o644, uid := 0, gid := 0 }
+  have hv : layerCtx { onDone := .skipAll, before := 1, after := 0 } (some { live := 3, err := .canceled }) [e1, e2, e3] = .ok [e1] := by decide
+  rcases h (some { live := 3, err := .canceled }) [e1, e2, e3] with ⟨e, he⟩ | hc
+  · rw [hv] at he; cases he
+  · rw [hv] at hc; exact absurd hc (by decide)
+
+/-- … while the same callback with a check after the walk (what the multi-layer path of that variant has) is safe, and
+so is a callback that does not look at the context at all -/
+example : walk_cancel_full { onDone := .skipAll, before := 0, after := 1 } ∧ walk_cancel_full { onDone := .noCheck, before := 0, after := 0 } :=
+  ⟨fun ctx es => layerCtx_error_or_complete _ (by decide) ctx es, fun ctx es => layerCtx_error_or_complete _ (by decide) ctx es⟩
+
+set_option maxRecDepth 16384 in
+/-- the hypotheses are met non-trivially: with three entries (four checks: root and one per entry) a context done at
+the second check makes today's single-layer call fail with its error, so does one done at the last check; one that is
+done after the walk's last check leaves the complete layer -/
+example :
+    let e1 : Entry := { path := [tx "a"], kind := .dir, mode := 0o755, uid := 0, gid := 0 }
+    let e2 : Entry := { path := [tx "a", tx "f"], kind := .reg, mode := 0o644, uid := 0, gid := 0 }
+    let e3 : Entry := { path := [tx "c"], kind := .symlink, mode := 0o777, uid := 0, gid := 0, linkname := tx "a/f" }
+    layerCtx singlePlan (some { live := 1, err := .deadline }) [e1, e2, e3] = .error .deadline ∧
+    layerCtx singlePlan (some { live := 3, err := .canceled }) [e1, e2, e3] = .error .canceled ∧
+    layerCtx singlePlan (some { live := 4, err := .canceled }) [e1, e2, e3] = .ok [e1, e2, e3] := by decide
+
+/-- how the plan is read: today's first callback statement returns the error; the `SkipAll` forms are recognised;
+a statement list without any mention of the context has no check -/
+example : onDoneOf Generated.tarWalkCallback = .returnErr ∧
+    onDoneOf ["if ctx.Err() != nil { return fs.SkipAll }", "if path == \".\" { return nil }"] = .skipAll ∧
+    onDoneOf ["if path == \".\" { return nil }", "select { case <-ctx.Done(): return nil }"] = .unknown ∧
+    onDoneOf ["if path == \".\" { return nil }"] = .noCheck ∧
+    ctxReturns ["if err := ctx.Err(); err != nil { return nil, err }", "layers := make([]v1.Layer, 0, len(groups)+1)"] = 1 := by decide
+
 /-! ## ties to the source (regenerated on every run by `extract/tar.go`) -/
 
 /-! ## the layer's bodies are what the interface reads (round 4)
@@ -828,6 +958,29 @@ theorem tie_tarTarfsLink : Generated.tarTarfsLink = (["parent := filepath.Dir(ne
   "target.linkCount++",
   "if hdr != nil { target.hardlinks[newname] = hdr }",
   "return nil"] : List String) := by rfl
+/-- the context checks of the callers of the walk (regenerated by `extract/tar.go`): none before the walk; after it
+`ImageLayoutToLayer` propagates `writeTar`'s error and finalizes, `BuildLayer` returns what `ImageLayoutToLayer` returns,
+`splitLayers` finalizes the layers, `buildLayers` returns what `splitLayers` returns -/
+theorem tie_tar_ctx_before_walk : Generated.tarLayerBeforeWalk = [] ∧ Generated.tarBuildLayerBeforeWalk = [] ∧
+    Generated.tarSplitBeforeWalk = [] ∧ Generated.tarBuildLayersBeforeWalk = [] := ⟨rfl, rfl, rfl, rfl⟩
+theorem tie_tarLayerFromWalk : Generated.tarLayerFromWalk = (["if err := writeTar(ctx, lw.w, bc.fs); err != nil { return \"\", nil, fmt.Errorf(\"generating tarball: %w\", err) }",
+  "l, err := lw.finalize()",
+  "if err != nil { return \"\", nil, fmt.Errorf(\"finalizing layer: %w\", err) }",
+  "return outfile.Name(), l, nil"] : List String) := by rfl
+theorem tie_tarBuildLayerFromWalk : Generated.tarBuildLayerFromWalk = (["return bc.ImageLayoutToLayer(ctx)"] : List String) := by rfl
+theorem tie_tarSplitFromWalk : Generated.tarSplitFromWalk = (["for f, err := range walkFS(ctx, fsys)",
+  "layers := make([]v1.Layer, 0, len(groups)+1)",
+  "for i, g := range groups { w := groupToWriter[g] l, err := w.finalize() if err != nil { return nil, fmt.Errorf(\"finalizing group[%d] layer: %w\", i, err) } layers = append(layers, l) }",
+  "topLayer, err := top.finalize()",
+  "if err != nil { return nil, fmt.Errorf(\"finalizing top layer: %w\", err) }",
+  "layers = append(layers, topLayer)",
+  "return layers, nil"] : List String) := by rfl
+theorem tie_tarBuildLayersFromWalk : Generated.tarBuildLayersFromWalk = (["return splitLayers(ctx, bc.fs, groups, bc.o.TempDir())"] : List String) := by rfl
+set_option maxRecDepth 16384 in
+/-- the plans the theorems above are about, as read off those statements -/
+theorem tie_tar_ctx_plans : singlePlan = { onDone := .returnErr, before := 0, after := 0 } ∧
+    writeTarPlan = { onDone := .returnErr, before := 0, after := 0 } ∧
+    multiPlan = { onDone := .returnErr, before := 0, after := 0 } := ⟨rfl, rfl, rfl⟩
 theorem tie_tarMemfsSys : Generated.tarMemfsSys = (["return &tar.Header{ Mode: int64(m.mode), Uid: m.uid, Gid: m.gid, }"] : List String) := by rfl
 theorem tie_tarMemfsSize : Generated.tarMemfsSize = (["return int64(len(m.data))"] : List String) := by rfl
 /-- every test of a node's tar entry in tarfs: `openFile` (package bytes on empty data of a non-empty package file)
